@@ -213,10 +213,31 @@ func runC12(p *core.Prog, r *core.Result) {
 				continue
 			}
 			n++
-			isClean := vals[0] == ssa.Value(clean)
+			// the accepted value: the cleaned path, or a selection among cleaned paths (one Clean per branch)
+			var cleanedVal func(v ssa.Value, seen map[ssa.Value]bool) bool
+			cleanedVal = func(v ssa.Value, seen map[ssa.Value]bool) bool {
+				if seen[v] {
+					return true
+				}
+				seen[v] = true
+				switch x := v.(type) {
+				case *ssa.Call:
+					return core.IsCallTo(x, "path", "Clean") || core.IsCallTo(x, "path/filepath", "Clean")
+				case *ssa.Phi:
+					for _, e := range x.Edges {
+						if !cleanedVal(e, seen) {
+							return false
+						}
+					}
+					return len(x.Edges) > 0
+				}
+				return false
+			}
+			isClean := cleanedVal(vals[0], map[ssa.Value]bool{})
+			clean := vals[0]
 			notDotDot := holdsX(p, ret, false, func(c ssa.Value, arg func(ssa.Value) ssa.Value) bool {
 				b, ok := c.(*ssa.BinOp)
-				if !ok || b.Op != token.EQL || arg(b.X) != ssa.Value(clean) {
+				if !ok || b.Op != token.EQL || arg(b.X) != clean {
 					return false
 				}
 				s, okc := core.ConstString(b.Y)
@@ -224,7 +245,7 @@ func runC12(p *core.Prog, r *core.Result) {
 			})
 			notPrefix := holdsX(p, ret, false, func(c ssa.Value, arg func(ssa.Value) ssa.Value) bool {
 				call, ok := c.(*ssa.Call)
-				if !ok || !core.IsCallTo(call, "strings", "HasPrefix") || arg(call.Call.Args[0]) != ssa.Value(clean) {
+				if !ok || !core.IsCallTo(call, "strings", "HasPrefix") || arg(call.Call.Args[0]) != clean {
 					return false
 				}
 				s, okc := core.ConstString(call.Call.Args[1])
@@ -237,13 +258,16 @@ func runC12(p *core.Prog, r *core.Result) {
 		// relative paths are joined with the package before cleaning
 		joined := false
 		for _, c := range core.Calls(rsp) {
-			if core.IsCallTo(c, "path", "Join") && core.Dominates(c.(ssa.Instruction), clean) == false {
-				// join happens on the non-absolute branch; it must flow into Clean
-				if core.DependsOn(clean.Call.Args[0], core.SliceOpts{}, func(v ssa.Value) bool { return v == c.(ssa.Value) }) {
-					joined = true
+			if !core.IsCallTo(c, "path", "Join") {
+				continue
+			}
+			// the join (on the non-absolute branch) must flow into a Clean
+			for _, cl := range core.Calls(rsp) {
+				if core.IsCallTo(cl, "path", "Clean") || core.IsCallTo(cl, "path/filepath", "Clean") {
+					if core.DependsOn(cl.Common().Args[0], core.SliceOpts{}, func(v ssa.Value) bool { return v == c.(ssa.Value) }) {
+						joined = true
+					}
 				}
-			} else if core.IsCallTo(c, "path", "Join") {
-				joined = true
 			}
 		}
 		r.Check(joined, "R12.2", "dawn.repoSourcePath#relative-to-package", p.Pos(rsp.Pos()), "relative paths are joined with the package directory before cleaning", "relative paths are not resolved against the package before the escape test")
